@@ -662,19 +662,6 @@ type (
 		pat  string
 		not  bool
 	}
-	pTupleIn struct {
-		cols  []int
-		names []string
-		rows  [][]lit
-		not   bool
-		guard bool // render with IS NOT NULL conjuncts for every left column (see known.go)
-	}
-	pTupleCmp struct {
-		cols  []int
-		names []string
-		op    string
-		vs    []lit
-	}
 	pAnd struct{ l, r pred }
 	pOr  struct{ l, r pred }
 	pNot struct{ p pred }
@@ -726,30 +713,6 @@ func (p *pLike) SQL() string {
 		n = "NOT "
 	}
 	return fmt.Sprintf("%s %sLIKE %s", p.name, n, strLit(p.pat).SQL())
-}
-
-func (p *pTupleIn) SQL() string {
-	n := ""
-	if p.not {
-		n = "NOT "
-	}
-	rows := make([]string, len(p.rows))
-	for i, r := range p.rows {
-		rows[i] = litList(r)
-	}
-	q := fmt.Sprintf("(%s) %sIN (%s)", strings.Join(p.names, ", "), n, strings.Join(rows, ", "))
-	if p.guard {
-		var g []string
-		for _, c := range p.names {
-			g = append(g, c+" IS NOT NULL")
-		}
-		q = "(" + strings.Join(g, " AND ") + " AND " + q + ")"
-	}
-	return q
-}
-
-func (p *pTupleCmp) SQL() string {
-	return fmt.Sprintf("(%s) %s %s", strings.Join(p.names, ", "), p.op, litList(p.vs))
 }
 
 func (p *pAnd) SQL() string { return "(" + p.l.SQL() + " AND " + p.r.SQL() + ")" }
@@ -840,36 +803,16 @@ func (g *gctx) leaf(rt *rapid.T) pred {
 		}
 		return &pLike{col: sc, name: g.sh.cols[sc].name, pat: pat, not: rapid.IntRange(0, 4).Draw(rt, "not") == 0}
 	default:
-		// tuple comparison over 2 columns, preferably the leading columns of a multi-column index
-		if len(g.sh.cols) < 2 {
-			return &pIsNull{col: c, name: col.name, not: rapid.Bool().Draw(rt, "not")}
+		// a second comparison of the same column, joined by AND / OR: closed, open and disjoint
+		// ranges over one index column
+		op1 := rapid.SampledFrom([]string{"<", "<=", ">", ">=", "=", "<>"}).Draw(rt, "op1")
+		op2 := rapid.SampledFrom([]string{"<", "<=", ">", ">=", "=", "<>"}).Draw(rt, "op2")
+		a := &pCmp{col: c, name: col.name, op: op1, v: g.lit(rt, c, false)}
+		b := &pCmp{col: c, name: col.name, op: op2, v: g.lit(rt, c, false)}
+		if rapid.Bool().Draw(rt, "and") {
+			return &pAnd{a, b}
 		}
-		var cands [][]int
-		if len(g.sh.pk) >= 2 {
-			cands = append(cands, g.sh.pk[:2])
-		}
-		for _, ix := range g.sh.indexes {
-			if len(ix.cols) >= 2 {
-				cands = append(cands, ix.cols[:2])
-			}
-		}
-		var cols []int
-		if len(cands) > 0 && rapid.IntRange(0, 3).Draw(rt, "fromidx") > 0 {
-			cols = rapid.SampledFrom(cands).Draw(rt, "tupcols")
-		} else {
-			cols = distinctCols(rt, len(g.sh.cols), 2, "tupcols")
-		}
-		names := []string{g.sh.cols[cols[0]].name, g.sh.cols[cols[1]].name}
-		if rapid.Bool().Draw(rt, "tupin") {
-			p := &pTupleIn{cols: cols, names: names, not: rapid.IntRange(0, 3).Draw(rt, "not") == 0}
-			n := rapid.IntRange(1, 3).Draw(rt, "nin")
-			for i := 0; i < n; i++ {
-				p.rows = append(p.rows, []lit{g.lit(rt, cols[0], false), g.lit(rt, cols[1], false)})
-			}
-			return p
-		}
-		return &pTupleCmp{cols: cols, names: names, op: rapid.SampledFrom([]string{"=", "<", "<=", ">", ">="}).Draw(rt, "op"),
-			vs: []lit{g.lit(rt, cols[0], false), g.lit(rt, cols[1], false)}}
+		return &pOr{a, b}
 	}
 }
 
